@@ -1010,6 +1010,10 @@ class Client():
             hostname = splits.hostname
             port = splits.port
             scheme = splits.scheme
+            if not hostname:  # relative location so same host, port and scheme
+                hostname = self.requester.hostname
+                port = port or self.requester.port
+                scheme = scheme or self.requester.scheme
             scheme = 'https' if scheme.lower() == 'https' else 'http'
             if scheme == 'https':
                 secured = True  # use tls socket connection
